@@ -84,18 +84,7 @@ package storage
 //@ -- start with R and L, different from U G D M T F of the kinds 1..6, and both payloads have the fixed width 32.
 //@ -- RoundKeyId is invertible (keyhid). LinkKeyId is NOT assumed injective in (from, to): that would be collision
 //@ -- freeness of Blake3; no clause below needs it.
-//@ uninterp RoundKeyId(h mathint) mathint
-//@ uninterp LinkKeyId(f mathint, t mathint) mathint
-//@ axiom forall h mathint :: {RoundKeyId(h)} keykind(RoundKeyId(h)) == 7 && keyhid(RoundKeyId(h)) == h
-//@ axiom forall f, t mathint :: {LinkKeyId(f, t)} keykind(LinkKeyId(f, t)) == 8
-//@ spec RK(h crypto.Hash) mathint = RoundKeyId(kvval(h))
-//@ spec LK(f crypto.Hash, t crypto.Hash) mathint = LinkKeyId(kvval(f), kvval(t))
-//@ assume func graphRoundKey
-//@   modifies nothing
-//@   ensures fresh(result) && kvkey(result) == RK(hash)
-//@ assume func graphLinkKey
-//@   modifies nothing
-//@   ensures fresh(result) && kvkey(result) == LK(from, to)
+//@ -- (RoundKeyId kind 17, LinkKeyId kind 18, RK, LK, graphRoundKey, graphLinkKey: zz_contracts_keyspace_verif.go)
 
 //@ -- observations of a transaction view
 //@ spec LinkVal(t badger.Txn, f crypto.Hash, to crypto.Hash) mathint = badger.kvget(t, LK(f, to))
@@ -169,10 +158,10 @@ package storage
 //@ spec DbLinkOf(d badger.DB, f crypto.Hash, to crypto.Hash) mathint = DbLinkVal(d, f, to) == 0 ? 0 : Be64Dec(DbLinkVal(d, f, to))
 //@ spec DbRoundVal(d badger.DB, h crypto.Hash) mathint = badger.dbget(d, RK(h))
 //@ spec DbHasRound(d badger.DB, h crypto.Hash) bool = DbRoundVal(d, h) != 0
-//@ spec RoundsHashed(t badger.Txn) bool = forall k mathint :: {badger.kvget(t, k)} keykind(k) == 7 && badger.kvget(t, k) != 0 ==> common.RoundHashOf(badger.kvget(t, k)).HasValue()
-//@ spec LinksLen8(t badger.Txn) bool = forall k mathint :: {badger.kvget(t, k)} keykind(k) == 8 && badger.kvget(t, k) != 0 ==> badger.vallen(badger.kvget(t, k)) == 8
-//@ spec DbRoundsHashed(d badger.DB) bool = forall k mathint :: {badger.dbget(d, k)} keykind(k) == 7 && badger.dbget(d, k) != 0 ==> common.RoundHashOf(badger.dbget(d, k)).HasValue()
-//@ spec DbLinksLen8(d badger.DB) bool = forall k mathint :: {badger.dbget(d, k)} keykind(k) == 8 && badger.dbget(d, k) != 0 ==> badger.vallen(badger.dbget(d, k)) == 8
+//@ spec RoundsHashed(t badger.Txn) bool = forall k mathint :: {badger.kvget(t, k)} keykind(k) == 17 && badger.kvget(t, k) != 0 ==> common.RoundHashOf(badger.kvget(t, k)).HasValue()
+//@ spec LinksLen8(t badger.Txn) bool = forall k mathint :: {badger.kvget(t, k)} keykind(k) == 18 && badger.kvget(t, k) != 0 ==> badger.vallen(badger.kvget(t, k)) == 8
+//@ spec DbRoundsHashed(d badger.DB) bool = forall k mathint :: {badger.dbget(d, k)} keykind(k) == 17 && badger.dbget(d, k) != 0 ==> common.RoundHashOf(badger.dbget(d, k)).HasValue()
+//@ spec DbLinksLen8(d badger.DB) bool = forall k mathint :: {badger.dbget(d, k)} keykind(k) == 18 && badger.dbget(d, k) != 0 ==> badger.vallen(badger.dbget(d, k)) == 8
 //@ -- StoreInv: representation invariant of the ROUND/LINK part of the store; every method below that writes re-establishes it
 //@ spec StoreInv(s *BadgerStore) bool = DbRoundsHashed(*s.snapshotsDB) && DbLinksLen8(*s.snapshotsDB)
 
